@@ -25,6 +25,8 @@ func init() {
 		{Name: "keepalive-not-decoded", Rule: "R1.1", Where: "Connect", Edits: []Edit{{"connect.go", "\tget(&p.flags)\n\tget(&p.keepAlive)\n", "\tget(&p.flags)\n"}}},
 		{Name: "reason-code-omitted-with-properties", Rule: "R1.1", Where: "PubRec", Edits: []Edit{{"pubrec.go", "\tif p.reasonCode > 0 || propl > 0 {\n\t\ti += p.reasonCode.fill(b, i)\n\t}", "\ti += p.reasonCode.fillOpt(b, i)"}}},
 		{Name: "length-prefix-off-by-one", Rule: "R1.4", Where: "bindata", Edits: []Edit{{"wiretypes.go", "\t\ti += wuint16(len(v)).fill(data, i)", "\t\ti += wuint16(len(v) + 1).fill(data, i)"}}},
+		{Name: "bool-not-written-into-last-byte", Rule: "R1.4", Where: "(wbool).fill", Edits: []Edit{{"wiretypes.go", "\tif len(data) >= i+1 {\n\t\tif v {", "\tif len(data) > i+1 {\n\t\tif v {"}}},
+		{Name: "u16-width-disagrees-with-encoder", Rule: "R1.4", Where: "wire type wuint16#width", Edits: []Edit{{"wiretypes.go", "func (v wuint16) width() int { return 2 }", "func (v wuint16) width() int { return 3 }"}}},
 		{Name: "u32-little-endian-decoder", Rule: "R1.4", Where: "wuint32", Edits: []Edit{{"wiretypes.go", "\t*v = wuint32(binary.BigEndian.Uint32(data))", "\t*v = wuint32(binary.LittleEndian.Uint32(data))"}}},
 		{Name: "unsubscribe-filter-list-decoded-once", Rule: "R1.1", Where: "Unsubscribe", Edits: []Edit{{"unsubscribe.go", "\t\tp.filters = append(p.filters, f)\n\t\tif b.i == len(data) {\n\t\t\tbreak\n\t\t}", "\t\tp.filters = append(p.filters, f)\n\t\tbreak"}}},
 		{Name: "subscription-ids-emitted-once", Rule: "R1.2", Where: "Publish", Edits: []Edit{{"publish.go", "\tfor j, _ := range p.subscriptionIDs {\n\t\ti += vbint(p.subscriptionIDs[j]).fillProp(b, i, SubscriptionID)\n\t}", "\tif len(p.subscriptionIDs) > 0 {\n\t\ti += vbint(p.subscriptionIDs[0]).fillProp(b, i, SubscriptionID)\n\t}"}}},
@@ -259,6 +261,7 @@ func checkC01(p *Prog, c *Check) {
 		}
 	}
 	p.checkCodecPairing(c)
+	p.widthAgreement(c, "R1.4")
 	c.Measured["abstract_states"] = nstates
 	c.Floor("packet types co-simulated", len(names), 15, "15 MQTT packet types")
 }
@@ -292,6 +295,26 @@ func (p *Prog) stripSameWidth(v ssa.Value) ssa.Value {
 	}
 }
 
+// stripNonNarrowing removes ChangeType and integer conversions that cannot lose bits of a non-negative value
+// (destination at least as wide as the source).
+func (p *Prog) stripNonNarrowing(v ssa.Value) ssa.Value {
+	for {
+		switch x := v.(type) {
+		case *ssa.ChangeType:
+			v = x.X
+		case *ssa.Convert:
+			a, ok1 := x.X.Type().Underlying().(*types.Basic)
+			b, ok2 := x.Type().Underlying().(*types.Basic)
+			if !ok1 || !ok2 || a.Info()&types.IsInteger == 0 || b.Info()&types.IsInteger == 0 || p.U.Sizes.Sizeof(b) < p.U.Sizes.Sizeof(a) {
+				return v
+			}
+			v = x.X
+		default:
+			return v
+		}
+	}
+}
+
 func (p *Prog) checkCodecPairing(c *Check) {
 	decs, _ := p.wireDecoders()
 	for _, d := range decs {
@@ -313,6 +336,21 @@ func (p *Prog) checkCodecPairing(c *Check) {
 		pos := p.Pos(enc.Pos())
 		data := d.Params[1]
 		epr := NewProver(p, enc)
+		// the encoder writes whenever the buffer has room (shared with C10 R10.6)
+		if ebuf, _, eems, _ := emissionsOf(p, enc); ebuf != nil {
+			gpr := NewProver(p, enc)
+			gpr.assumeContracts()
+			for _, f := range writeGuardFindings(p, gpr, enc, ebuf, eems) {
+				switch {
+				case f.ok:
+					c.OK("R1.4", f.cons, f.pos, f.how)
+				case f.unk:
+					c.Unk("R1.4", f.cons, f.pos, f.how)
+				default:
+					c.Bad("R1.4", f.cons, f.pos, f.how)
+				}
+			}
+		}
 		dpr := NewProver(p, d)
 		findCall := func(fn *ssa.Function, suffix string) *ssa.Call {
 			for _, b := range fn.Blocks {
@@ -479,4 +517,84 @@ func (p *Prog) checkCodecPairing(c *Check) {
 			c.Unk("R1.4", cons, pos, "wire kind not recognised")
 		}
 	}
+}
+
+// widthAgreement: the sequential reader advances by width() of the value just decoded; that is the
+// number of bytes the value occupies only if width() is the encoder's width for the same value.
+// Decided per wire type: width() is the encoder's dry run, or both have the same exact linear
+// summary over the receiver (constant, len(v)+2, ...).
+func (p *Prog) widthAgreement(c *Check, rule string) {
+	decs, _ := p.wireDecoders()
+	n := 0
+	norm := func(l *Lin, fn *ssa.Function) string {
+		if l == nil {
+			return "-"
+		}
+		s := l.String()
+		if len(fn.Params) > 0 {
+			s = strings.ReplaceAll(s, "p:"+fn.Params[0].Name(), "p:$recv")
+		}
+		return s
+	}
+	for _, d := range decs {
+		pt, ok := d.Params[0].Type().Underlying().(*types.Pointer)
+		if !ok {
+			continue
+		}
+		nt := namedOf(pt.Elem())
+		if nt == nil {
+			continue
+		}
+		name := nt.Obj().Name()
+		w, f := p.Method(name, "width"), p.Method(name, "fill")
+		if w == nil || f == nil {
+			continue
+		}
+		n++
+		cons := "wire type " + name + "#width"
+		pos := p.Pos(w.Pos())
+		// (a) width() is literally the dry run of fill
+		if len(w.Blocks) == 1 {
+			if ret, ok := terminator(w.Blocks[0]).(*ssa.Return); ok && len(ret.Results) == 1 {
+				if g, recv, ok := p.dryRunCallValue(ret.Results[0]); ok && g == f && recv == ssa.Value(w.Params[0]) {
+					c.OK(rule, cons, pos, "width() is the encoder's dry run on the same value")
+					continue
+				}
+			}
+		}
+		ws := p.retSummary(w)
+		if ws.exact == nil {
+			c.Unk(rule, cons, pos, "width() has no exact summary and is not the encoder's dry run")
+			continue
+		}
+		want := norm(ws.exact, w)
+		// (b) every return of fill has that form (copy(dst, src) under a guard that makes room counts as len(src))
+		pr := NewProver(p, f)
+		pr.assumeContracts()
+		bad := ""
+		for _, b := range f.Blocks {
+			ret, ok := terminator(b).(*ssa.Return)
+			if !ok || len(ret.Results) != 1 {
+				continue
+			}
+			l := pr.lin(ret.Results[0])
+			if call, isCall := ret.Results[0].(*ssa.Call); isCall {
+				if bi, isB := call.Call.Value.(*ssa.Builtin); isB && bi.Name() == "copy" {
+					dl, sl := pr.lenOf(call.Call.Args[0]), pr.lenOf(call.Call.Args[1])
+					if pr.Prove(call.Block(), dl.sub(sl)) {
+						l = sl
+					}
+				}
+			}
+			if got := norm(&l, f); got != want {
+				bad = fmt.Sprintf("fill returns %s at %s, width() is %s", got, posOf(p, ret), want)
+			}
+		}
+		if bad != "" {
+			c.Bad(rule, cons, pos, "the reader would advance by a different amount than the value occupies: "+bad)
+		} else {
+			c.OK(rule, cons, pos, "width() = "+want+" = what the encoder emits for the same value")
+		}
+	}
+	c.Floor("wire types with width()", n, 6, "byte, u16, u32, variable byte integer, length-prefixed data and user property at least")
 }
